@@ -327,6 +327,26 @@ def _job(job):
         if compare(ra, rb, "YAML options %r language %r vs command line" % (opts, job.get("language")), "c:cli"):
             out["nontrivial"].append(("c", name, repr(opts), job.get("language")))
             out["sample"] = dict(relation="c", lib=name, options=opts, language=job.get("language"))
+    elif kind == "a3":
+        # a block inside a block: the outer block's setting reaches the declarations of the inner one
+        doc = meta.load(job["yaml"])
+        i, j = job["span"]
+        A = copy.deepcopy(doc)
+        lst = A["declarations"]
+        inner = {"block": True, "declarations": lst[i:j]}
+        outer = {"block": True, "declarations": [inner], ("options" if job["what"] == "option" else "format"): {job["key"]: job["value"]}}
+        lst[i:j] = [outer]
+        B = doc
+        for p in functions_under(doc, None):
+            if i <= p[0] < j:
+                B = set_on(B, p, job["what"], job["key"], job["value"])
+        ra, rb = _run(meta.dump(A), job["argv"], name), _run(meta.dump(B), job["argv"], name)
+        if compare(ra, rb, "%s %s=%r on a block around a block (declarations %d..%d) vs on each function"
+                   % (job["what"], job["key"], job["value"], i, j), "a3:%s:%s" % (job["what"], job["key"])):
+            base = _run(meta.dump(doc), job["argv"], name)
+            out["runs"] += 1
+            if base.status == "ok" and files_of(base) != files_of(ra):
+                out["nontrivial"].append(("a3", name, job["key"], i, j))
     elif kind == "d":
         doc = meta.load(job["yaml"])
         B = copy.deepcopy(doc)
@@ -456,6 +476,27 @@ def run(ctx):
         for span in smallgen.sample(st.integers(0, nd - 1).flatmap(lambda a: st.tuples(st.just(a), st.integers(a + 1, nd))),
                                     ctx.seed * 41 + i, 1 if quick else 3):
             jobs.append(dict(kind="d", name=name, yaml=text, argv=[], span=list(span)))
+        # a3: nested blocks with a function-scoped setting on the outer one
+        nd0 = len(doc0.get("declarations") or [])
+        if nd0 >= 1:
+            for (span, kv) in smallgen.sample(st.tuples(
+                    st.integers(0, nd0 - 1).flatmap(lambda a: st.tuples(st.just(a), st.integers(a + 1, nd0))),
+                    st.sampled_from([("option",) + x for x in FUNC_OPTIONS] + [("format",) + x for x in FUNC_FORMATS])),
+                    ctx.seed * 47 + i, 2 if quick else 5):
+                # (a class that was forward declared earlier takes format / options from its initial decl only -
+                #  struct.rst - so a span holding the re-opening decl is not a place for a setting)
+                tops = doc0["declarations"]
+                names_before = set()
+                reopened = False
+                for k_, d_ in enumerate(tops):
+                    if meta.decl_kind(d_) == "class":
+                        cn = decl_name(d_["decl"])
+                        if cn in names_before and span[0] <= k_ < span[1]:
+                            reopened = True
+                        names_before.add(cn)
+                if reopened:
+                    continue
+                jobs.append(dict(kind="a3", name=name, yaml=text, argv=[], span=list(span), what=kv[0], key=kv[1], value=kv[2]))
         # ... and inside a namespace or class (ast.BlockNode: "Blocks can be added to a LibraryNode,
         # NamespaceNode or ClassNode")
         for cpath in [p for p, n, _l in meta.walk_decls(doc0) if meta.decl_kind(n) in ("class", "namespace")
